@@ -19,6 +19,7 @@ var (
 	errReadTimeout   = errors.New("vconn: read timeout")
 	errInjConnClose  = errors.New("injected connection close error")
 	errInjAgentClose = errors.New("injected agent close error")
+	errInjAgentStart = errors.New("injected agent start error")
 )
 
 var cliT0 = time.Date(2024, 6, 1, 12, 0, 0, 0, time.UTC)
@@ -45,7 +46,12 @@ type cliEv struct {
 
 func (e cliEv) String() string {
 	switch e.K {
-	case "start", "do", "resp", "dup", "overwrite", "indicate":
+	case "resp":
+		if e.Arg == 1 {
+			return fmt.Sprintf("resp(%c,1024 bytes)", 'A'+e.I)
+		}
+		return fmt.Sprintf("resp(%c)", 'A'+e.I)
+	case "start", "do", "dup", "overwrite", "indicate":
 		return fmt.Sprintf("%s(%c)", e.K, 'A'+e.I)
 	case "tick":
 		return "tick(" + []string{"at-deadline", "just-after-deadline", "far"}[e.Arg] + ")"
@@ -158,6 +164,7 @@ type cliWorld struct {
 	fatal     string
 	rtoNow    time.Duration
 	endPos    int
+	agentStartFailed bool
 }
 
 func (w *cliWorld) rec(r obsRec) int {
@@ -275,6 +282,7 @@ type vAgent struct {
 	w         *cliWorld
 	a         *stun.Agent
 	deadlines map[[12]byte]time.Time
+	failStart bool // the next Start fails (a ClientAgent is user-supplied: its Start may return an error)
 }
 
 func (a *vAgent) Process(m *stun.Message) error { return a.a.Process(m) }
@@ -286,6 +294,11 @@ func (a *vAgent) Close() error {
 	return err
 }
 func (a *vAgent) Start(id [stun.TransactionIDSize]byte, deadline time.Time) error {
+	if a.failStart {
+		a.failStart = false
+		a.w.agentStartFailed = true
+		return errInjAgentStart
+	}
 	err := a.a.Start(id, deadline)
 	if err == nil {
 		a.deadlines[id] = deadline
@@ -351,12 +364,21 @@ func cliRequest(slot, size int) *stun.Message {
 	return m
 }
 
-func cliResponse(slot int, variant int) []byte {
+func cliResponse(slot int, variant int) []byte { return cliResponseSized(slot, variant, 0) }
+
+// cliResponseSized: size 1 = a response of exactly 1024 bytes (the client's read buffer).
+func cliResponseSized(slot int, variant int, size int) []byte {
 	m := new(stun.Message)
 	m.TransactionID = cliID(slot)
 	m.Type = stun.BindingSuccess
 	m.WriteHeader()
 	m.Add(stun.AttrSoftware, []byte(fmt.Sprintf("resp-%d-%d", slot, variant)))
+	if size == 1 {
+		m.Add(stun.AttrData, make([]byte, 1024-len(m.Raw)-4))
+		if len(m.Raw) != 1024 {
+			panic("cliResponseSized: not 1024 bytes")
+		}
+	}
 	return append([]byte(nil), m.Raw...)
 }
 
@@ -400,6 +422,8 @@ func errClass(err error) string {
 		return "stopped"
 	case errors.Is(err, errInjectedWrite):
 		return "write-error"
+	case errors.Is(err, errInjAgentStart):
+		return "agent-start-error"
 	case errors.Is(err, errConnClosed):
 		return "conn-closed-write-error"
 	}
@@ -505,12 +529,14 @@ func (w *cliWorld) do(ev cliEv, quiesce bool) {
 				break
 			}
 		}
-		d := cliResponse(ev.I, len(w.delivered))
+		d := cliResponseSized(ev.I, len(w.delivered), ev.Arg)
+		w.rec(obsRec{Kind: "deliver", Inst: -1, N: len(w.delivered), ID: cliID(ev.I)})
 		w.delivered = append(w.delivered, d)
 		w.conn.inbox = append(w.conn.inbox, d)
 	case "unknown":
 		sched.Point("net", nil)
-		d := cliResponse(9, len(w.delivered))
+		d := cliResponseSized(9, len(w.delivered), ev.Arg)
+		w.rec(obsRec{Kind: "deliver", Inst: -1, N: len(w.delivered), ID: cliID(9)})
 		w.delivered = append(w.delivered, d)
 		w.conn.inbox = append(w.conn.inbox, d)
 	case "garbage":
@@ -537,6 +563,8 @@ func (w *cliWorld) do(ev cliEv, quiesce bool) {
 		w.coll.tick(t)
 	case "failwrite":
 		w.conn.failNext = true
+	case "failagent":
+		w.agent.failStart = true
 	case "close":
 		sched.Point("invoke", nil)
 		n := w.closeRets
